@@ -34,7 +34,7 @@ for pid in sorted(props):
     op = [f["id"] for f in kf if f["property"] == pid and f["status"] == "known"]
     fx = [f["id"] for f in kf if f["property"] == pid and f["status"] == "fixed"]
     sd = seeds.get(pid, [])
-    det = sum(1 for _, d in sd if d.get("checks_run", {}).get("detected"))
+    det = sum(1 for _, d in sd if d.get("detected_now", d.get("checks_run", {}).get("detected")))
     rows.append(f"| {pid} | {props[pid]['title']} | {c['level_claimed']['category'] if c else 'not claimed'} | {thm} | {cases} | "
                 f"{', '.join(op) or '–'} | {', '.join(fx) or '–'} | {det}/{len(sd)} |")
 A = "\n".join(rows)
@@ -46,13 +46,18 @@ for f in sorted(kf, key=lambda f: (f["property"], f["id"])):
 B = "\n".join(rows)
 
 # C: seeded changes
-rows = ["| seeded change | property | what was changed | needs | detected | by |", "|---|---|---|---|---|---|"]
+rows = ["| seeded change | property | what was changed | needs | detected at first run | detected now | by |", "|---|---|---|---|---|---|---|"]
 for pid in sorted(seeds):
     for name, d in seeds[pid]:
         cr = d.get("checks_run", {})
-        by = "; ".join(f"{k}: {short(v.get('first_replay') or (v.get('violation_lines') or ['–'])[0], 90)}" for k, v in cr.get("outcome", {}).items() if v.get("rc"))
-        hist = " (after strengthening — see meta.json)" if d.get("history") else ""
-        rows.append(f"| seeded/{name} | {pid} | {short(d.get('summary',''),160)} | {short(d.get('needs',''),120)} | {'yes' if cr.get('detected') else 'NO'}{hist} | {by or '–'} |")
+        last = (d.get("rechecks") or [cr])[-1]
+        by = "; ".join(f"{k}: {short(v.get('first_replay') or (v.get('violation_lines') or ['–'])[0], 90)}" for k, v in last.get("outcome", {}).items() if v.get("rc"))
+        first = 'yes' if cr.get('detected') else 'NO'
+        now = 'yes' if d.get("detected_now", cr.get("detected")) else 'NO'
+        note = ""
+        if d.get("rechecks"):
+            note = " (" + short(d["rechecks"][-1].get("note", ""), 90) + ")"
+        rows.append(f"| seeded/{name} | {pid} | {short(d.get('summary',''),160)} | {short(d.get('needs',''),120)} | {first} | {now}{note} | {by or '–'} |")
 C = "\n".join(rows)
 
 # D: commits in /repo
